@@ -80,6 +80,9 @@ Definition wild_range : prange := PR 0 65535.
 Definition set_tunnel (p : pdr) (teid tdst : N) : pdr :=
   Pdr (p_id p) (p_fseid p) (p_iface p) (p_iface_m p) tdst M32 teid M32 (p_ue p) (p_prec p) (p_far p) (p_qers p) (p_decap p)
       (p_alloc p) (p_choose p) (f_sip p) (f_sip_m p) (f_dip p) (f_dip_m p) (f_sp p) (f_dp p) (f_proto p) (f_proto_m p).
+Definition clear_tunnel (p : pdr) : pdr :=
+  Pdr (p_id p) (p_fseid p) (p_iface p) (p_iface_m p) 0 0 0 0 (p_ue p) (p_prec p) (p_far p) (p_qers p) (p_decap p)
+      (p_alloc p) (p_choose p) (f_sip p) (f_sip_m p) (f_dip p) (f_dip_m p) (f_sp p) (f_dp p) (f_proto p) (f_proto_m p).
 Definition set_choose (p : pdr) : pdr :=
   Pdr (p_id p) (p_fseid p) (p_iface p) (p_iface_m p) (p_tdst p) (p_tdst_m p) (p_teid p) (p_teid_m p) (p_ue p) (p_prec p) (p_far p)
       (p_qers p) (p_decap p) (p_alloc p) true (f_sip p) (f_sip_m p) (f_dip p) (f_dip_m p) (f_sp p) (f_dp p) (f_proto p) (f_proto_m p).
@@ -144,8 +147,10 @@ Fixpoint pdi_first (els : list pdi_el) (seid : N) (pl : option pool) (p : pdr) :
       else pdi_first r seid pl p
     | PFteid IErr => (pl, None)
     | PFteid (IOk (ch, teid, v4)) =>
-      if ch then pdi_first r seid pl (set_choose p)
-      else if negb (teid =? 0) then pdi_first r seid pl (set_tunnel p teid (ip2int v4))
+      (* CHOOSE: the flag is set and any explicit tunnel of the same PDI is dropped; an explicit F-TEID does not
+         apply once CHOOSE was seen *)
+      if ch then pdi_first r seid pl (clear_tunnel (set_choose p))
+      else if negb (teid =? 0) && negb (p_choose p) then pdi_first r seid pl (set_tunnel p teid (ip2int v4))
       else pdi_first r seid pl p
     | _ => pdi_first r seid pl p
     end
